@@ -4,6 +4,7 @@ mod drive_paserk;
 mod drive_tokens;
 mod keys;
 mod obs_b64;
+mod obs_cjson;
 mod obs_claims;
 mod obs_pae;
 mod payload;
@@ -36,6 +37,11 @@ fn main() {
             println!("lines={}", rec.finish());
         }
         "gen-fixtures" => keys::gen_fixtures(),
+        "obs-cjson" => {
+            let mut rec = Recorder::create(&out);
+            obs_cjson::run(&mut rec, thorough, seed);
+            println!("lines={}", rec.finish());
+        }
         "obs-claims" => {
             let mut rec = Recorder::create(&out);
             let (n, nu) = obs_claims::run(&mut rec, &arg(&args, "--cases").expect("--cases"), thorough, seed);
